@@ -251,6 +251,7 @@ int main()
         DbGrid* g = DbGrid::create(nx, dx);
         SimuFFTParam par;
         int n0 = g->getColumnNumber();
+        if (getenv("VERIF_DEBUG")) { fprintf(stderr, "cfg %ld fft ndim=%d nx=%d dx=", ic, ndim, nx[0]); for (int d = 0; d < ndim; d++) fprintf(stderr, "%g ", dx[d]); fprintf(stderr, "model:\n%s\n", m2->toString().c_str()); }
         int rc = simfft(g, m2, par, (int)nsim, (int)rng.range(1, 1000000));
         if (rc == 0) printf("w count fft %ld %d =>\n", nsim, g->getColumnNumber() - n0);
         if (rc == 0 && g->getColumnNumber() == n0 + (int)nsim)
@@ -262,7 +263,9 @@ int main()
           for (long k = 0; k < nsim; k++) for (int i = 0; i < np; i++) S[i][k] = g->getValueByColIdx(idx[i], n0 + (int)k);
           std::vector<SpacePoint> P; for (int i = 0; i < np; i++) { VectorDouble c(ndim); for (int d = 0; d < ndim; d++) c[d] = g->getCoordinate(idx[i], d); P.push_back(SpacePoint(c)); }
           std::vector<double> C = modelCov(m2, P, 1), mu(np, 0.);
-          moments("fft", S, C, mu, st);
+          if (getenv("VERIF_DEBUG")) { fprintf(stderr, "   nodes:"); for (int i = 0; i < np; i++) fprintf(stderr, " %d", idx[i]); fprintf(stderr, "\n"); }
+          // the structure kind is part of the label: the very regular Gaussian structure is a known finding (F95)
+          moments("fft:" + std::string(m2->getCova(0)->getType().getKey()) + (getenv("VERIF_DEBUG") ? ":cfg" + std::to_string(ic) : std::string("")), S, C, mu, st);
         }
         else st.hit("simfft_refused");
         delete g; delete m2;
